@@ -826,19 +826,20 @@ def suite_ser(g, scale):
             g.emit("sermany64 %s" % " ".join(r.sample(made, min(len(made), r.choice([2, 3, 6, 12])))))
             g.count("ser64:sermany")
     # 1c. more buckets than a 32-bit bitmap can have containers (65536), high keys included
-    x = g.fresh("m")
-    g.emit("new64 %s" % x)
-    cnt = r.choice([65537, 66000, 70000])
-    start = r.choice([0, 5, (0x7FFFFFF0 << 32) + 9, ((1 << 32) - cnt - 3) << 32])
-    g.emit("addstride64 %s %d %d %d" % (x, start, (1 << 32) + r.choice([0, 1]), cnt))
-    g.emit("card64 %s" % x)
-    g.emit("ser64 %s" % x)
-    g.emit("wf64 %s" % x)
-    for entry in ENTRIES:
-        y = g.fresh("d")
-        g.emit("rd64 %s %s %s%s" % (y, entry, x, r.choice(["", " extra=3"])))
-        g.emit("eq64 %s %s" % (y, x))
-    g.count("ser64:manybuckets")
+    # … and bucket counts that look like something else in the first four bytes (the 32-bit format's cookies 12346 / 12347)
+    for cnt in [r.choice([65537, 66000, 70000]), r.choice([12346, 12347, 12347 + 65536])]:
+        x = g.fresh("m")
+        g.emit("new64 %s" % x)
+        start = r.choice([0, 5, (0x7FFFFFF0 << 32) + 9, ((1 << 32) - cnt - 3) << 32])
+        g.emit("addstride64 %s %d %d %d" % (x, start, (1 << 32) + r.choice([0, 1]), cnt))
+        g.emit("card64 %s" % x)
+        g.emit("ser64 %s" % x)
+        g.emit("wf64 %s" % x)
+        for entry in ENTRIES:
+            y = g.fresh("d")
+            g.emit("rd64 %s %s %s%s" % (y, entry, x, r.choice(["", " extra=3"])))
+            g.emit("eq64 %s %s" % (y, x))
+        g.count("ser64:manybuckets")
     # 2. small streams: spec reading of the bytes, truncation sweep, header corruption
     for _ in range(int(10 * scale)):
         x = g.fresh("s")
